@@ -80,7 +80,9 @@ DecClause(c, e) ==
   ELSE IF ~DecodedOK(e.plan, c.n, e.x) THEN "spec-decoding-not-ok" ELSE "ok"
 VerdictC15(c) ==
   LET b == IF Len(c.bp) = 0 THEN "ok" ELSE BlueprintClause(c.n, c.rounds, c.bp) IN
-  IF b # "ok" THEN "blueprint:" \o b
+  \* real = 1: the plan was created by the library for an instance with an even number of teams
+  IF "real" \in DOMAIN c /\ c.real = 1 /\ c.days # (c.n - 1) * c.rounds THEN "plan-has-wrong-number-of-days"
+  ELSE IF b # "ok" THEN "blueprint:" \o b
   ELSE FirstBad([i \in 1..Len(c.decodes) |-> DecClause(c, c.decodes[i])], 1, Len(c.decodes))
 
 Verdict(c) == IF Prop = "C07" THEN VerdictC07(c) ELSE IF Prop = "C08" THEN VerdictC08(c) ELSE VerdictC15(c)
